@@ -203,7 +203,7 @@ CHECKS = {
         "exploration",
         "enum",
         "enumeration of datasets x transfer syntaxes x PDU sizes x chunked modes x operations, each run end to end between two real AEs under the simulator",
-        "Datasets built from an 18-element pool covering the VR classes (each element alone, the full pool, pairs), four transfer syntaxes, maximum PDU 0 / 16382 / small values that split inside element headers, chunked send and chunked receive on and off, C-STORE, C-FIND identifier and response, C-GET sub-operation and four DIMSE-N request/response pairs: at the peer handler the decoded dataset, the raw encoded bytes and the chunked-receive file must each equal the original, and response datasets must equal at the SCU.",
+        "Datasets built from an 18-element pool covering the VR classes (each element alone, the full pool, pairs), four transfer syntaxes, maximum PDU 0 / 16382 / small values that split inside element headers, chunked send and chunked receive on and off, datasets that declare each other convertible transfer syntax than the accepted context's, C-STORE, C-FIND identifier and response, C-GET sub-operation and four DIMSE-N request/response pairs: at the peer handler the decoded dataset, the raw encoded bytes and the chunked-receive file must each equal the original, and response datasets must equal at the SCU.",
         "pydicom's dataset codec and equality are trusted; private elements excluded.",
         "3/C25",
     ),
@@ -219,8 +219,8 @@ CHECKS = {
         "model_checking",
         "sim",
         "history monitor evaluated on every execution of a deviation-bounded exhaustive schedule exploration of two real AEs",
-        "Every schedule with at most D deviations of all 25 two-AE life-cycle scenarios is executed on the real code with recording handlers bound to all notification events and a wire tap on the simulated connection; a second layer runs the real side against 11 scripted raw peers that end by staying silent with the connection open, with the 1st..8th (thorough 12th) invocation of the handler of each of the 17 notification events taking longer than the ARTIM time-out; the monitor checks FSM-transition chaining, connection open/close ordering and multiplicity, established-before-terminal, and equality of PDU/DATA notifications with the bytes that crossed the wire.",
-        "Same trusted base as C05/C06; bytes written to a connection whose peer already closed count as having crossed the wire.",
+        "Every schedule with at most D deviations of all 25 two-AE life-cycle scenarios is executed on the real code with recording handlers bound to all notification events and a wire tap on the simulated connection; a second layer runs the real side against 11 scripted raw peers that end by staying silent with the connection open, with the 1st..8th (thorough 12th) invocation of the handler of each of the 17 notification events taking longer than the ARTIM time-out; a third (start-race) layer adds a scheduling point directly after every Thread.start() and adversarial time (early wake-ups of sleeping pollers) and explores every schedule with <= 2 such deviations; the monitor checks FSM-transition chaining, connection open/close ordering and multiplicity, established-before-terminal, and equality of PDU/DATA notifications with the bytes that crossed the wire.",
+        "Same trusted base as C05/C06; bytes written to a connection whose peer already closed count as having crossed the wire; the post-start scheduling point and adversarial time are used by the start-race layer only (DESIGN.md 9.6).",
         "3/C27",
     ),
     "C28": (
